@@ -438,6 +438,126 @@ def log_write_of(repo, notes):
     return res, True
 
 
+def top_statements(text):
+    """(start, end) of the statements of a block at brace depth 0: split on `;` at depth 0 and after a `}` that closes a
+    depth-0 block which is followed by something that is not `else` / `.` / `?` / `;` / `)` / `,`"""
+    out, depth, par, st, i, n = [], 0, 0, 0, 0, len(text)
+    while i < n:
+        c = text[i]
+        if c in "([":
+            par += 1
+        elif c in ")]":
+            par -= 1
+        elif c == "{":
+            depth += 1
+        elif c == "}":
+            depth -= 1
+            if depth == 0 and par == 0:
+                rest = text[i + 1:].lstrip()
+                if not re.match(r"(else\b|\.|\?|;|\)|,)", rest):
+                    out.append((st, i + 1))
+                    st = i + 1
+        elif c == ";" and depth == 0 and par == 0:
+            out.append((st, i + 1))
+            st = i + 1
+        i += 1
+    if text[st:].strip():
+        out.append((st, n))
+    return out
+
+
+def const_usize(src, name):
+    """value of `const NAME: usize = <product of integer literals>;`"""
+    m = re.search(r"\bconst\s+" + re.escape(name) + r"\s*:\s*(?:usize|u64)\s*=\s*([^;]+);", src)
+    return int_product(m.group(1)) if m else None
+
+
+def int_product(expr):
+    parts = [p.strip().replace("_", "") for p in expr.split("*")]
+    if not parts or not all(re.fullmatch(r"\d+(?:usize|u64)?", p) for p in parts):
+        return None
+    v = 1
+    for p in parts:
+        v *= int(re.sub(r"[a-z]\w*$", "", p))
+    return v
+
+
+def gate_of(src, body, side, notes, what):
+    """every statement in front of the first `write_all` of an append-to-disk function that can make it return early
+    (`return`, `?`), classified; anything not recognised is GOther (never guessed)"""
+    w = re.search(r"\bwriter\s*\.\s*write_all\s*\(", body)
+    if not w:
+        notes.append(f"{what}: no writer.write_all(..)")
+        return ["GOther"], False
+    pre = body[:w.start()]
+    # `if <cond> {` directly in front of the write (the write's own `if ..write_all(..).is_err() { return }`) is not part of pre
+    pre = re.sub(r"\bif\s*$", "", pre)
+    gate = []
+    for a, b in top_statements(pre):
+        st = pre[a:b]
+        flat = re.sub(r"\s+", " ", st).strip()
+        if re.match(r"#\s*\[cfg\(rip_verif\)\]\s*rip_kernel\s*::\s*verif\s*::\s*point\s*\(", flat):
+            continue
+        early = re.search(r"\breturn\b", st) or re.search(r"\?\s*(?:;|\.|\)|,|$)", st)
+        if not early:
+            continue
+        if re.fullmatch(r"let (?:mut )?\w+ = serde_json\s*::\s*to_string\s*\(\s*event\s*\)\s*\.\s*map_err\s*\(.*\)\s*\?\s*;", flat) or \
+           re.fullmatch(r"let Ok\s*\(\s*(?:mut )?\w+\s*\) = serde_json\s*::\s*to_string\s*\(\s*event\s*\) else \{ return\s*;? \}\s*;?", flat):
+            gate.append("GSerialize")
+            continue
+        if side and re.fullmatch(r"if event\s*\.\s*stream_kind\s*\(\s*\) != StreamKind\s*::\s*Continuity \{ return\s*;? \}", flat):
+            gate.append("GKind")
+            continue
+        if side and (re.fullmatch(r"let Ok\s*\(\s*\w+\s*\) = OpenOptions\s*::\s*new\s*\(\s*\)[\w\s.()]*\.\s*open\s*\(\s*&\s*\w+\s*\) else \{ return\s*;? \}\s*;?", flat)
+                     or re.fullmatch(r"let \w+ = match \w+\s*\.\s*metadata\s*\(\s*\) \{ Ok\s*\(\s*\w+\s*\) => \w+\s*\.\s*len\s*\(\s*\)\s*, Err\s*\(\s*_\s*\) => return\s*,? \}\s*;", flat)):
+            gate.append("GIo")
+            continue
+        m = re.fullmatch(r"if (\w+)\s*\.\s*len\s*\(\s*\) (>=|>) ([\w:]+|[\d_]+(?:\s*\*\s*[\d_]+)*) \{ return Err\s*\(.*\)\s*;? \}", flat)
+        if m:
+            rhs = m.group(3)
+            n = int_product(rhs) if re.match(r"\d", rhs) else const_usize(src, rhs.split("::")[-1])
+            if n is not None:
+                if m.group(2) == ">=":
+                    n -= 1
+                gate.append(f"GMaxLine {n}")
+                notes.append(f"{what}: refuses a frame whose line is longer than {n} bytes (`{flat[:80]}`)")
+                continue
+        gate.append("GOther")
+        notes.append(f"{what}: unrecognised early return in front of the write: `{flat[:120]}`")
+    return gate, True
+
+
+def append_gates_of(repo, notes):
+    """the gate of EventLog::append and of the sidecar append: what can refuse a frame before it is written"""
+    p = os.path.join(repo, "crates/rip-log/src/lib.rs")
+    p2 = os.path.join(repo, "crates/ripd/src/continuity_stream_cache.rs")
+    ok = True
+    log_gate, side_gate = ["GOther"], ["GOther"]
+    if os.path.exists(p):
+        src = blank_literals(strip_tests(strip_comments(open(p).read())))
+        body = fn_body(src, "append")
+        if body is None:
+            notes.append("rip-log: fn append not found")
+            ok = False
+        else:
+            log_gate, k = gate_of(src, body, False, notes, "EventLog::append")
+            ok = ok and k
+    else:
+        ok = False
+    if os.path.exists(p2):
+        src2 = blank_literals(strip_tests(strip_comments(open(p2).read())))
+        b2 = fn_body(src2, "append_best_effort")
+        if b2 is None:
+            notes.append("continuity_stream_cache.rs: fn append_best_effort not found")
+            ok = False
+        else:
+            side_gate, k = gate_of(src2, b2, True, notes, "append_best_effort")
+            ok = ok and k
+    else:
+        ok = False
+    return log_gate, side_gate, ok
+
+
 def main():
     ap = argparse.ArgumentParser()
     ap.add_argument("--repo", required=True)
@@ -460,7 +580,7 @@ def main():
     lines = ["(* GENERATED by tools/gen/sinks.py from crates/ripd/src/{continuities,session,tasks/mod}.rs on every ./check run - do not edit.",
              "   One record per place where ripd publishes a frame: does the same unmodified binding feed the log append, the",
              "   store next to it (sidecar / snapshot buffer) and the broadcast send? *)",
-             "From RipV Require Import Base.Prelude Base.Json Model.Wire.", "",
+             "From RipV Require Import Base.Prelude Base.Json Model.Wire Model.WireSized.", "",
              f"Definition gen_ok_sinks : bool := {coq_bool(ok)}.", ""]
     for n in notes:
         lines.append(f"(* note: {n} *)")
@@ -528,7 +648,28 @@ def main():
     lines.append("Definition gen_payload_guards : list bool := [" + "; ".join(coq_bool(g) for g in guards) + "].")
     lines.append("Lemma gen_payload_bound_ok : wf_payload_bound gen_payload_bound gen_payload_guards = true.")
     lines.append("Proof. vm_compute. reflexivity. Qed.")
-    notes = notes + rnotes + bnotes + [f"{x['fn']}: {x['gnote']}" for x in sites if x.get("gnote")]
+    gnotes = []
+    lg, sg, gok = append_gates_of(a.repo, gnotes)
+    lines.append("")
+    lines.append("(* the GATE of EventLog::append and of the sidecar append: every statement in front of the write that can make the")
+    lines.append("   function return (`return`, `?`).  Expected: the serialiser's `?` only (sidecar: + not-a-continuity-frame, open / metadata")
+    lines.append("   failure) - nothing that looks at the frame.  The session / task emitters drop the result of EventLog::append AFTER having")
+    lines.append("   recorded and published the frame, so a frame the log refuses is live and in the snapshot and not in the log. *)")
+    for n in gnotes:
+        lines.append(f"(* note: {n} *)")
+    lines.append(f"Definition gen_ok_append_gate : bool := {coq_bool(gok)}.")
+    lines.append("Definition gen_append_gate : append_gate := [" + "; ".join(lg) + "].")
+    lines.append("Definition gen_side_gate : append_gate := [" + "; ".join(sg) + "].")
+    lines.append("Lemma gen_append_gate_ok : gen_ok_append_gate && wf_append_gate gen_append_gate && wf_side_gate gen_side_gate = true.")
+    lines.append("Proof. vm_compute. reflexivity. Qed.")
+    lines.append("")
+    lines.append("(* the correspondence check of the sized streams (harness/src/bin/c03/sized.rs): the model predicts the views of every frame")
+    lines.append("   from the gate above and from the order of the emit sites above *)")
+    lines.append("Definition gen_sess_order : emit_order := order_of_sites false eo_sess gen_sinks.")
+    lines.append("Definition gen_cont_order : emit_order := order_of_sites true eo_cont gen_sinks.")
+    lines.append("Definition check_sized : sized_case -> bool := check_sized_with gen_append_gate gen_sess_order gen_cont_order.")
+    lines.append("Definition sized_obs : sized_case -> list N := sized_obs_with gen_append_gate gen_sess_order gen_cont_order.")
+    notes = notes + rnotes + bnotes + gnotes + [f"{x['fn']}: {x['gnote']}" for x in sites if x.get("gnote")]
     os.makedirs(a.out, exist_ok=True)
     with open(os.path.join(a.out, "Sinks.v"), "w") as f:
         f.write("\n".join(lines) + "\n")
